@@ -179,8 +179,8 @@ class C08(Prop):
             "states merged on (text of the target formula, grounded queries, grounded evidence); non-trivial = state with "
             ">= 2 grounded items")
     assumptions = ["programs whose fresh grounding of the same queries/evidence is itself wrong are excluded (C01 cases)"]
-    families = {"quick": [("FTWIN", 5), ("F2.3", 192), ("F3.1", 32), ("F2.2", 8), ("F1.1", 4)],
-                "thorough": [("FTWIN", 5), ("F3.3", 512), ("F2.4", 256), ("F3.2", 96), ("F2.3", 192), ("F1.3s", 48), ("F1.2q", 128),
+    families = {"quick": [("FTWIN", 4), ("F2.3", 192), ("F3.1", 32), ("F2.2", 8), ("F1.1", 4)],
+                "thorough": [("FTWIN", 4), ("F3.3/16", 64), ("F2.4/8", 64), ("F3.2", 96), ("F2.3", 192), ("F1.3s", 48), ("F1.2q", 128),
                              ("F3.1", 16), ("F2.2", 8), ("F1.1", 4)]}
     budget = {"quick": 400, "thorough": 2700}
 
